@@ -202,8 +202,11 @@ def apply_sequences(history, literals, seqs, rep):
         if off <= 0 or off > len(history):
             return None
         start = len(history) - off
-        for i in range(ml):
-            history.append(history[start + i])
+        if off >= ml:
+            history += history[start:start + ml]
+        else:
+            pat = bytes(history[start:])
+            history += (pat * (ml // off + 1))[:ml]
     history += literals[lp:]
     return history
 
@@ -236,6 +239,7 @@ def make_sequence_frames(rng, count, hostile=False):
         body = b''
         ok = True
         oversized = False
+        over128k = False
         wlog = rng.choice([10, 12, 17, 20, 22])
         maxblk = min(131072, 1 << wlog)        # Block_Maximum_Size: a block may not regenerate more than the window
         feats = set()
@@ -257,6 +261,7 @@ def make_sequence_frames(rng, count, hostile=False):
             rle_b = rng.below(256)
             budget = maxblk
             local_rep = list(rep)
+            msum = 0
             for k in range(nseq):
                 ll = rng.choice([0, 0, 1, 2, 3, 15, 16, 17, 40, 200]) if budget > 2000 else 0
                 if rng.below(30) == 0 and budget > 70000 and nseq < 50:
@@ -266,10 +271,10 @@ def make_sequence_frames(rng, count, hostile=False):
                     ml = rng.choice([32770, 32771, 65538, 65539])
                 if hostile and rng.below(4) == 0:
                     ml = rng.choice([65539, 131074, 100000])
-                avail = hl + len(lits) + ll + sum(s[1] for s in seqs)
+                avail = hl + len(lits) + ll + msum
                 r = rng.below(10)
                 if avail == 0:
-                    ll = max(ll, 1); avail = hl + len(lits) + ll + sum(s[1] for s in seqs)
+                    ll = max(ll, 1); avail = hl + len(lits) + ll + msum
                 if r < 3:
                     ov = rng.choice([1, 2, 3])
                 elif r < 9:
@@ -278,9 +283,10 @@ def make_sequence_frames(rng, count, hostile=False):
                     ov = 3 + min(avail, 1 << wlog)
                 lits += bytes([rle_b]) * ll if lit_kind == 'rle' else rng.bytes(ll)
                 seqs.append((ll, ml, ov))
+                msum += ml
                 budget -= ll + ml
                 if budget < 0 and not hostile:
-                    seqs.pop(); lits = lits[:len(lits) - ll]
+                    seqs.pop(); lits = lits[:len(lits) - ll]; msum -= ml
                     break
             tail = rng.choice([0, 0, 1, 5, 100]) if budget > 200 else 0
             lits += bytes([rle_b]) * tail if lit_kind == 'rle' else rng.bytes(tail)
@@ -292,9 +298,11 @@ def make_sequence_frames(rng, count, hostile=False):
                 if state[kind].cur is not None:
                     opts += ['repeat', 'repeat']
                 modes[kind] = rng.choice(opts)
-            total = len(lits) + sum(s[1] for s in seqs)
+            total = len(lits) + msum
             if total > maxblk:
                 oversized = True
+            if total > 131072:
+                over128k = True
             new_hist = apply_sequences(bytearray(history), bytes(lits), seqs, rep)
             if new_hist is None:
                 ok = False
@@ -333,5 +341,5 @@ def make_sequence_frames(rng, count, hostile=False):
         if ck:
             f += (xxh64(bytes(history)) & 0xFFFFFFFF).to_bytes(4, 'little')
         out.append({'frame': f, 'content': bytes(history), 'params': {'wlog': wlog}, 'cls': 'synthetic-seq',
-                    'producer': 'synthetic', 'oversized': oversized, 'features': sorted(feats)})
+                    'producer': 'synthetic', 'oversized': oversized, 'over128k': over128k, 'features': sorted(feats)})
     return out
